@@ -188,8 +188,9 @@ def native_history(rp, m, hist, drift_val):
             ms = min(b // 10 ** 6, 10 ** 6)
             disp = ms / 1000.0
             age = REF_BASE - (mval(m, d['ref']) if mval(m, d['ref']) is not None else REF_BASE - 10 ** 6)
-            toks.append('R,%s,%s,%s,%s,%d,%d,%d,%d,%d' % (f64_hex(0.0), f64_hex(0.0), f64_hex(disp), f64_hex(16.0), leap, age, 0, mval(m, d['as_s']), mval(m, d['as_n'])))
-            expect.append(('R', c, ms, mval(m, d['phc']), b, mval(m, d['as_s']), mval(m, d['as_n'])))
+            phc = max(0, min(mval(m, d['phc']) or 0, 2 ** 40))
+            toks.append('R,%s,%s,%s,%s,%d,%d,%d,%d,%d' % (f64_hex(0.0), f64_hex(0.0), f64_hex(disp), f64_hex(16.0), leap, age, phc, mval(m, d['as_s']), mval(m, d['as_n'])))
+            expect.append(('R', c, ms, phc, b, mval(m, d['as_s']), mval(m, d['as_n'])))
         elif d['kind'] == 1:
             toks.append('G'); expect.append(('G',))
         else:
@@ -200,8 +201,8 @@ def native_history(rp, m, hist, drift_val):
 
 def oracle_history(out, expect, drift, prop):
     """exact evaluation of C08/C09 on the records the real updater published for a replayed history.
-    The PHC term is not replayed (0); the bound of a synchronised report is whatever the real extract returned,
-    taken from the record itself when it first appears (C07 decides its value)."""
+    The bound of a synchronised report is whatever the real extract returned plus the PHC term handed in, taken from the record
+    itself when it first appears (C07 decides its value); afterwards it must stay frozen until the next synchronised report."""
     if not out.startswith('ok'):
         return ['native run: ' + out]
     recs = [tuple(int(x) for x in r.split(':')) for r in out.split()[1:]]
